@@ -92,6 +92,10 @@ def check(prog, ctx):
     ctx.sub('domain', domain, prog, ctx)
     ctx.sub('acceptance', acceptance, prog, ctx)
     ctx.sub('counts', counts, prog, ctx)
+    ctx.rule('C18.e', 'dependency: Inverse_Transform_Sampling returns the root found by Find_Root and Sample_Gauss the value of Quantile_Gauss; '
+             'they inherit the obligations of C02 and of C07.d about those functions', 8)
+    ctx.inherit('C02', lambda o: o.rule.startswith('C02.'), 'C18.e', 'Inverse_Transform_Sampling')
+    ctx.inherit('C07', lambda o: o.rule == 'C07.d' and 'Quantile_Gauss' in o.instance, 'C18.e', 'Sample_Gauss')
 
 
 def uniform_args(prog, e):
